@@ -365,6 +365,14 @@ def r12_7(ctx, fx):
     b = bool(ev) and bool(nt) and all(e not in fn.reach([fn.entry], avoid=nt) for e in ev)
     ctx.ob("R12.7", "poll_next/close-does-not-overtake-received-notifications", a or b, site=fn.site(closed[0]) if closed else fn.site(fn.entry), cfg=fx.cfg,
            detail="(A) notif_rx drained before NotificationStreamClosed is returned: %s; (B) notif_rx polled before event_rx: %s" % (a, b))
+    # (A) parks the other peers' notifications it reads while draining in a side queue that is delivered first: the closed peer's
+    # entries of *that* queue (parked during an earlier close of another peer) are purged on every path to the return as well
+    parks = [c for c in fn.calls(r"VecDeque(<.*>)?::push_back$") if ".pending_notifications" in fn.recv(c)]
+    if a and parks:
+        purge = [c.node for c in fn.calls(r"VecDeque(<.*>)?::(retain|retain_mut|clear)$") if ".pending_notifications" in fn.recv(c)]
+        okp = bool(purge) and all(n not in fn.reach([fn.entry], avoid=purge) for n in closed)
+        ctx.ob("R12.7", "poll_next/closed-peer's-parked-notifications-are-purged", okp, site=fn.site(closed[0]) if closed else fn.site(fn.entry), cfg=fx.cfg,
+               detail="purge calls on pending_notifications: %d" % len(purge))
 
 
 def run(ctx):
